@@ -26,7 +26,8 @@ RULE = ('Exhaustive product of: platform {default,P} x package default environme
         '%(global)s and system-variable references)} x {6 P-platform layer templates (absent, overlapping+disjoint keys, '
         'override of a referenced key, DEFAULTS on the P layer, self references, PATH idiom)} x selection spelling '
         '{unset, "", none/NONE/None, environment/Environment/ENVIRONMENT, name lower/Mixed/UPPER, via %(variable)s} x '
-        'interpreter {no, yes}; definitions are spelled in rotating case. Two drivers (in-memory graph, on-disk '
+        'interpreter {no, yes} (the via-variable spelling, and in quick the UPPER spelling of named environments, only '
+        'without interpreter); definitions are spelled in rotating case. Two drivers (in-memory graph, on-disk '
         'package). Thorough adds 3+2 layer templates (empty DEFAULTS segments, reference chains, library-path idiom), '
         'a fourth launch environment, the flipped definition spellings and replicated (non-primitive) graphs for every '
         'configuration (quick: replicated graphs for the rich launch environment with system variables only; the package '
@@ -38,7 +39,8 @@ RULE = ('Exhaustive product of: platform {default,P} x package default environme
         'environment on one platform that differ only in case, an environment literally called "none"; values that '
         'reference their own key without importing it and values reached through a chain of >=2 references inside the '
         'environment are only leak-checked; selecting "environment" by name when no platform defines it may either '
-        'fail or give the launch environment.')
+        'fail or give the launch environment. Failing cases that have exactly the shape of a described defect (a '
+        'selector matches) are recorded once per (class, document) and otherwise only counted.')
 ASSUMPTIONS = [
     'system variables are an input: Part A passes them as system_vars, Part B reads what the runtime chose from '
     'experimentGraph.configuration.system_vars (INSTANCE_DIR, FLOW_EXPERIMENT_NAME, FLOW_RUN_ID)',
